@@ -48,6 +48,8 @@ def run(idx: ProgramIndex, rep: Report, tier: str):
     positional_contract(idx, rep)
     whole_noise_outside(idx, rep)
     call_time_noise_priority(idx, rep)
+    container_interface_complete(idx, rep)
+    keyword_translated_for_all_entry_points(idx, rep)
 
 
 def marginals(idx: ProgramIndex, rep: Report):
@@ -795,3 +797,54 @@ def _after_returning_not_none(fn: ast.AST, target: ast.AST, name: str) -> bool:
                 if seen_guard and any(x is target for x in ast.walk(st)):
                     return True
     return False
+
+
+# ---- C12-12 --------------------------------------------------------------------------------------------------------
+PER_MEMBER_ENTRY_POINTS = ("__call__", "forward", "marginal", "log_marginal", "expected_log_prob", "get_fantasy_likelihood")
+
+
+def container_interface_complete(idx: ProgramIndex, rep: Report):
+    """'LikelihoodList applies each member likelihood with its own arguments': that has to hold for every entry point of the likelihood
+    interface that works on a distribution (or produces a likelihood); an entry point that the container inherits from _Likelihood treats the
+    LIST of per-member arguments as the arguments of one Monte-Carlo likelihood."""
+    rep.rule("C12-12", "LikelihoodList overrides every per-distribution entry point of the likelihood interface (__call__, forward, marginal, log_marginal, expected_log_prob, get_fantasy_likelihood) and routes it to its members")
+    C = idx.find_class("LikelihoodList")
+    n = 0
+    for ep in PER_MEMBER_ENTRY_POINTS:
+        n += 1
+        m = C.methods.get(ep)
+        routed = m is not None and any(isinstance(c.func, ast.Attribute) and c.func.attr == ep.strip("_") or (ep == "__call__" and isinstance(c.func, ast.Name) and c.func.id == "likelihood") for c in calls_in(m.node)) if m is not None else False
+        if m is not None and not routed:
+            routed = any(isinstance(x, (ast.ListComp, ast.For)) and "likelihoods" in src(x) for x in ast.walk(m.node))
+        rep.add("C12-12", "%s:LikelihoodList.%s" % (C.module.name, ep), (m.where if m is not None else C.where), bool(routed),
+                "routed to the members" if routed else
+                "LikelihoodList does not override %s: the inherited implementation of _Likelihood receives the per-member tuples / lists as if they were the arguments of one likelihood (AttributeError for marginal / log_marginal; get_fantasy_likelihood returns a plain copy that ignores the per-member fantasy noise)" % ep, {})
+    rep.floor("C12-12", "per-member entry points of LikelihoodList", n, 6)
+
+
+# ---- C12-13 --------------------------------------------------------------------------------------------------------
+def keyword_translated_for_all_entry_points(idx: ProgramIndex, rep: Report):
+    """A likelihood that translates a call-time keyword into the noise keyword (DirichletClassificationLikelihood: targets -> noise) has to
+    do so for every entry point: __call__, marginal, log_marginal, expected_log_prob and forward all obtain the noise from
+    _shaped_noise_covar, so the translation belongs there (or in each of them); translated in __call__ alone, the other entry points
+    silently fall back to the stored noise, because the noise models swallow unknown keywords."""
+    rep.rule("C12-13", "a call-time keyword that a likelihood translates into `noise` is translated for every entry point that obtains the noise (in _shaped_noise_covar, or in each of __call__ / marginal / log_marginal / expected_log_prob / forward)")
+    base = idx.find_class("_GaussianLikelihoodBase")
+    n = 0
+    ENTRY = ("__call__", "marginal", "log_marginal", "expected_log_prob", "forward")
+    for cls in sorted(idx.subclasses(base), key=lambda c: c.qualname):
+        translators = {}
+        for name, m in cls.methods.items():
+            for a in ast.walk(m.node):
+                # kwargs["noise"] = <something computed from kwargs.pop("<kw>") / kwargs["<kw>"]>
+                if isinstance(a, ast.Assign) and any(isinstance(t, ast.Subscript) and isinstance(t.slice, ast.Constant) and t.slice.value == "noise" for t in a.targets):
+                    popped = [c.args[0].value for c in calls_in(m.node) if isinstance(c.func, ast.Attribute) and c.func.attr in ("pop", "get") and c.args and isinstance(c.args[0], ast.Constant) and isinstance(c.args[0].value, str) and c.args[0].value != "noise"]
+                    for kw in popped:
+                        translators.setdefault(kw, set()).add(name)
+        for kw, where in sorted(translators.items()):
+            n += 1
+            ok = "_shaped_noise_covar" in where or all(e in where for e in ENTRY)
+            rep.add("C12-13", "%s:%s[%s -> noise]" % (cls.module.name, cls.qualname, kw), cls.where, ok,
+                    "translated in %s" % ", ".join(sorted(where)) if ok else
+                    "the keyword `%s` is turned into the call-time noise in %s only; %s obtain the noise through _shaped_noise_covar without it and silently use the stored noise (marginal(dist, %s=test_labels) adds the training noise: error 2.38)" % (kw, ", ".join(sorted(where)), ", ".join(e for e in ENTRY if e not in where), kw), {})
+    rep.floor("C12-13", "translated call-time keywords", n, 1)
